@@ -22,10 +22,23 @@ def burst_case(draw):
   n = draw(st.integers(2, 9))
   prios = draw(st.sampled_from([[1000], [1, 2], [1, 2, 3], [5, 5, 7], [None, 1]]))
   pubs = [[draw(st.sampled_from(SIGS)), draw(st.sampled_from(prios))] for _ in range(n)]
+  # the "make the event once, publish it many times" idiom: some publications hand the fabric the
+  # very Event object of an earlier one (same signal and priority)
+  reuse = []
+  if draw(st.integers(0, 2)) == 0:
+    root = {}
+    for i in range(1, n):
+      if draw(st.integers(0, 2)) == 0:
+        j = draw(st.integers(0, i - 1))
+        j = root.get(j, j)
+        root[i] = j
+        pubs[i] = list(pubs[j])
+        reuse.append([i, j])
   # the body keeps the baton for long stretches so that the delivery threads lag behind
   lag = draw(st.lists(st.tuples(st.just(0), st.integers(50, 400)), max_size=3))
   sched_ = [list(x) for x in lag] + [list(x) for x in draw(schedule_st)]
-  return {"pubs": pubs, "schedule": sched_, "publishers": draw(st.sampled_from([1, 1, 2])),
+  return {"pubs": pubs, "schedule": sched_, "publishers": 1 if reuse else draw(st.sampled_from([1, 1, 2])),
+          "reuse": reuse,
           # publish through the fabric directly, or through a (decorated / undecorated) active object
           "via": draw(st.sampled_from(["fabric", "fabric", "ao_decorated", "ao_undecorated", "ao_not_yet_started"])),
           "before_start": draw(st.sampled_from([0, 0, 1, 2, 3, 4])),
@@ -40,7 +53,7 @@ class C08(Prop):
   thorough_examples = 6000
   rule = ("Generated bursts of 2-9 publications (signal, priority from a small set so that equal "
           "priorities are common; None = default; in a third of the cases the process has already made 2^15..2^63 publications, simulated by advancing the library's publication counter) made by the body thread - through the fabric or through a decorated or "
-          "undecorated active object's publish() - (optionally split over "
+          "undecorated active object's publish() - in a third of the bursts some publications hand over the very Event object of an earlier one (make once, publish many times) - (optionally split over "
           "two publisher threads; the first 0-4 of them before the fabric is started, so that they "
           "are waiting in it when it starts) against the real ActiveFabric under the deterministic scheduler; "
           "schedules begin with long body segments so that several events wait in the fabric at "
@@ -75,6 +88,8 @@ class C08(Prop):
       ao.FabricEvent.sequence = itertools.count(case["published_before"])
 
     late_start = []
+    reuse = dict((i, j) for i, j in case.get("reuse") or [])
+    evobj, chain = {}, {}
 
     def body(s):
       af = ao.ActiveFabric()
@@ -104,10 +119,16 @@ class C08(Prop):
           sig, prio = case["pubs"][i]
           p = {"prio": 1000 if prio is None else prio, "inv": s.steps, "ret": None}
           pubs[i] = p
-          if prio is None:
-            publisher.publish(Event(signal=signals[sig], payload=i))
+          if i in reuse:
+            ev = evobj[reuse[i]]            # the same Event object again
+            chain[reuse[i]].append(i)
           else:
-            publisher.publish(Event(signal=signals[sig], payload=i), priority=prio)
+            ev = evobj[i] = Event(signal=signals[sig], payload=i)
+            chain[i] = [i]
+          if prio is None:
+            publisher.publish(ev)
+          else:
+            publisher.publish(ev, priority=prio)
           p["ret"] = s.steps
       n = len(case["pubs"])
       # some publications are made before the fabric is started: they wait in it
@@ -143,6 +164,17 @@ class C08(Prop):
     requested_early = set(range(min(case.get("before_start", 0), len(case["pubs"])))) \
         if case.get("via") == "ao_not_yet_started" else set()
     for kind, r in recs.items():
+      if reuse:
+        # the n-th delivery of an Event object that was published several times (same priority,
+        # one publisher) stands for its n-th publication: the objects are one and the same, no
+        # other assignment could be told apart
+        seen, items = {}, []
+        for root, step in r.items:
+          n_ = seen.get(root, 0)
+          seen[root] = n_ + 1
+          ids = chain.get(root, [root])
+          items.append((ids[n_] if n_ < len(ids) else -1 - root, step))
+        r.items = items
       order = [i for i, _ in r.items]
       if sorted(order) != sorted(pubs):
         raise PropertyViolation("%s subscriber received %s for publications %s" % (
@@ -181,7 +213,8 @@ class C08(Prop):
                 "%s thread: publication %d (priority %s) was waiting (publish returned at step %d) "
                 "when %d (priority %s) was taken after step %d, yet %d went first; order %s" % (
                   kind, x, px["prio"], px["ret"], y, py["prio"], bound, y, order), "C08:priority")
-    stats.case(case, waiting3, ["publishers_%d" % case["publishers"]] + (["three_equal_waiting"] if waiting3 else []))
+    stats.case(case, waiting3, ["publishers_%d" % case["publishers"]] + (["three_equal_waiting"] if waiting3 else []) +
+               (["same_event_object_published_again"] if reuse else []))
 
 
 PROP = C08
